@@ -644,6 +644,7 @@ def run(ctx):
     ctx.assumptions += [
         "histories: <= 3 commits exhaustively (<= 6 in walks), each commit with a private tree and blob, 2 refs, <= 2 (3) packs alive, bounded depth",
         "timestamps increase with the commit number (clock skew is C13's subject)",
+        "ref steps (AccelRefStep): one ref with 2 values next to a packed-only bystander; the visible mutations are os.rename/replace/remove/unlink/rmdir under the repository; a crash leaves lock files behind, readers do not take locks",
         "C git 2.39.5 as writer of commit-graph, multi-pack-index, bitmaps (repack -adb), packed-refs",
         "the long-lived reader is compared on objects that still exist (its open packs may outlive a prune: pack cache, not acceleration data)",
         "get_reachable_commits(exclude)/get_reachable_objects of the graph-traversal provider are accepted with the meaning of the code OR of the documentation (they differ; counted in answers_matching_code_not_documentation)",
